@@ -373,3 +373,109 @@ func runFnOf(fn *ssa.Function) *ssa.Function {
 	}
 	return fn
 }
+
+// cmpTruthRel: the relation between x and y that `x.Cmp(y) OP k` asserts (k in -1..1), by the set of Cmp outcomes for
+// which the test is true.
+func cmpTruthRel(op token.Token, k int64) (token.Token, bool) {
+	set := 0
+	for i, c := range []int64{-1, 0, 1} {
+		t := false
+		switch op {
+		case token.EQL:
+			t = c == k
+		case token.NEQ:
+			t = c != k
+		case token.LSS:
+			t = c < k
+		case token.LEQ:
+			t = c <= k
+		case token.GTR:
+			t = c > k
+		case token.GEQ:
+			t = c >= k
+		default:
+			return 0, false
+		}
+		if t {
+			set |= 1 << uint(i)
+		}
+	}
+	switch set {
+	case 1:
+		return token.LSS, true
+	case 2:
+		return token.EQL, true
+	case 4:
+		return token.GTR, true
+	case 3:
+		return token.LEQ, true
+	case 6:
+		return token.GEQ, true
+	case 5:
+		return token.NEQ, true
+	}
+	return 0, false
+}
+
+// bigCmpG: an edge on which "A rel B" holds for two big numbers / amounts / coins, in any of the ways the repository
+// writes such a test: a.Cmp(b) OP k or b.Cmp(a) OP k (k in -1..1, constant on either side of OP), or the Coin
+// comparators LessThanCoin / LessThanEqualCoin with the operands in either role.
+func bigCmpG(label string, a VPred, rel token.Token, b VPred) *EdgeGuard {
+	return &EdgeGuard{Name: label, Classify: func(p *Program, fn *ssa.Function, cond ssa.Value, _ *ssa.If) int {
+		v, flip := stripNot(cond)
+		v = resolveLoad(v)
+		var actual token.Token
+		var x, y ssa.Value
+		switch t := v.(type) {
+		case *ssa.BinOp:
+			c, isC := t.X.(*ssa.Call)
+			k, isK := intConst(t.Y)
+			op := t.Op
+			if !isC || !isK {
+				c, isC = t.Y.(*ssa.Call)
+				k, isK = intConst(t.X)
+				op = mirror(t.Op)
+			}
+			if !isC || !isK || len(c.Call.Args) != 2 {
+				return 0
+			}
+			switch calleeName(c) {
+			case "(*math/big.Int).Cmp", "(*math/big.Int).CmpAbs":
+			default:
+				return 0
+			}
+			r, ok := cmpTruthRel(op, k)
+			if !ok {
+				return 0
+			}
+			actual, x, y = r, c.Call.Args[0], c.Call.Args[1]
+		case *ssa.Call:
+			if len(t.Call.Args) != 2 {
+				return 0
+			}
+			switch calleeName(t) {
+			case "(data/balance.Coin).LessThanCoin":
+				actual = token.LSS
+			case "(data/balance.Coin).LessThanEqualCoin":
+				actual = token.LEQ
+			default:
+				return 0
+			}
+			x, y = t.Call.Args[0], t.Call.Args[1]
+		default:
+			return 0
+		}
+		switch {
+		case a(x) && b(y):
+		case a(y) && b(x):
+			actual = mirror(actual)
+		default:
+			return 0
+		}
+		pol := relPolarity(actual, rel)
+		if flip {
+			pol = -pol
+		}
+		return pol
+	}}
+}
